@@ -47,9 +47,10 @@ Inductive pres (T : Type) :=
 | PTok (t : T).        (* a record; opens iff it was minted, for the presenting identity *)
 Arguments PNone {T}. Arguments PGarbage {T}. Arguments PForged {T}. Arguments PTok {T} t.
 
-(* a _ResolvedCall: call-state type (0 = none) and payload; rc_for is a ghost: the AAD identity it was minted for *)
-Record resolved := RC { rc_ty : N; rc_payload : N; rc_for : list N }.
-Definition resolved_of (ct : call_tok) : resolved := RC (ct_ty ct) (ct_payload ct) (ct_aad ct).
+(* a _ResolvedCall: call-state type (0 = none) and payload.  Ghosts (not in the unchanged source, never read by the
+   turn): rc_for = the AAD identity it was minted for, rc_created = mint second of its call token *)
+Record resolved := RC { rc_ty : N; rc_payload : N; rc_for : list N; rc_created : N }.
+Definition resolved_of (ct : call_tok) : resolved := RC (ct_ty ct) (ct_payload ct) (ct_aad ct) (ct_created ct).
 
 (* rejection classes (message of the 400) *)
 Definition E_cur_malformed := 1.   (* Malformed state token *)
@@ -67,7 +68,8 @@ Definition call_reasons : list N := [E_call_malformed; E_call_sig; E_call_expire
 (* ---- clock --------------------------------------------------------------------------------------------------- *)
 Definition sec (now : N) : N := now / 4.                       (* int(time.time()) *)
 (* _app.py: ttl=float(token_ttl) if token_ttl > 0 else 3600.0, in clock units *)
-Definition cache_ttl (ttl : N) : N := 4 * (if 0 <? ttl then ttl else 3600).
+Definition cache_ttl_sec (ttl : N) : N := if 0 <? ttl then ttl else 3600.
+Definition cache_ttl (ttl : N) : N := 4 * cache_ttl_sec ttl.
 (* token_ttl > 0 and int(time.time()) - created_at > token_ttl *)
 Definition expired (ttl now created : N) : bool := (0 <? ttl) && (ttl <? sec now - created).
 
@@ -88,20 +90,30 @@ Fixpoint c_remove (k : key) (c : cache) : cache :=
   | (k', v) :: r => if key_eqb k k' then r else (k', v) :: c_remove k r
   end.
 
+(* the guards and expressions of get / put, as in the source (tie/T_CallCache.v: equal to the regenerated ones) *)
+Definition get_expired (expires_at now : N) : bool := expires_at <=? now.        (* if expires_at <= now *)
+Definition put_expiry (now ttlc : N) : N := now + ttlc.                          (* now + self._ttl *)
+Definition over_capacity (len cap : N) : bool := cap <? len.                     (* len(self._entries) > self._max_entries *)
+
 (* get: miss | expired (entry deleted, miss) | hit (move_to_end) *)
 Definition cache_get (k : key) (now : N) (c : cache) : cache * option resolved :=
   match c_find k c with
   | None => (c, None)
   | Some (exp, r) =>
-      if exp <=? now then (c_remove k c, None)
+      if get_expired exp now then (c_remove k c, None)
       else (c_remove k c ++ [(k, (exp, r))], Some r)
   end.
 
-(* while len(entries) > max_entries: popitem(last=False) *)
-Definition trim (cap : N) (c : cache) : cache := skipn (length c - N.to_nat cap) c.
+(* while len(entries) > max_entries: popitem(last=False)   (fuel: at most len iterations) *)
+Fixpoint trim_loop (fuel : nat) (cap : N) (c : cache) : cache :=
+  match fuel with
+  | O => c
+  | S f => if over_capacity (N.of_nat (length c)) cap then trim_loop f cap (tl c) else c
+  end.
+Definition trim (cap : N) (c : cache) : cache := trim_loop (length c) cap c.
 (* put: store (now + ttl, resolved), move_to_end, evict the oldest while over capacity *)
 Definition cache_put (cap ttlc : N) (k : key) (r : resolved) (now : N) (c : cache) : cache :=
-  trim cap (c_remove k c ++ [(k, (now + ttlc, r))]).
+  trim cap (c_remove k c ++ [(k, (put_expiry now ttlc, r))]).
 
 (* ---- opening the tokens (verdict classes, in the order of the source) -------------------------------------- *)
 Definition mem_cu (t : cur_tok) (l : list cur_tok) : bool := existsb (cu_eqb t) l.
@@ -135,7 +147,12 @@ Definition resolve_cold (declares : N -> N -> bool) (ttl now : N) (calls : list 
   end.
 
 (* ---- the system: workers with private caches, shared key (= shared minted lists), logical clock ---------- *)
-Record cfg := Cfg { ttl : N; caps : list N }.
+(* dated_miss: what the miss path hands to put as the entry's birth -- false: `now` (the unchanged source); true: the
+   call token's created_at when token_ttl > 0 (fixes/C14-miss-path-entry-expires-with-call-token.diff).  The flag
+   is regenerated from the source (gen_dated_miss). *)
+Record cfg := Cfg { ttl : N; caps : list N; dated_miss : bool }.
+Definition miss_birth (c : cfg) (now : N) (r : resolved) : N :=
+  if dated_miss c && (0 <? ttl c) then 4 * rc_created r else now.
 Record world := W { clock : N; next_cid : N; calls : list call_tok; curs : list cur_tok; caches : list cache }.
 
 Inductive req :=
@@ -205,7 +222,7 @@ Section Step.
         | None =>
             match resolve_cold declares (ttl c) now (calls wd) a m (cu_cid cu) call with
             | inl e => (set_cache wd w cw, ORejected e)
-            | inr r => proceed (set_cache wd w (cache_put (cap_of c w) (cache_ttl (ttl c)) k r now cw)) a m cu r body
+            | inr r => proceed (set_cache wd w (cache_put (cap_of c w) (cache_ttl (ttl c)) k r (miss_birth c now r) cw)) a m cu r body
             end
         end
     end.
@@ -232,7 +249,7 @@ Section Step.
   Definition outcomes (c : cfg) (t0 : N) (h : list req) : list outcome := snd (run c t0 h).
 
   (* the reference of the statement: the same workers, every cache of capacity 0 (always empty) *)
-  Definition cold (c : cfg) : cfg := Cfg (ttl c) (map (fun _ => 0) (caps c)).
+  Definition cold (c : cfg) : cfg := Cfg (ttl c) (map (fun _ => 0) (caps c)) (dated_miss c).
 
   (* the class of continuation requests on which the unchanged code is NOT transparent: the cursor token is
      accepted, but a worker without a cache entry refuses the presented call token (absent, malformed, not sealed
@@ -251,6 +268,29 @@ Section Step.
     | _ => false
     end.
 
+  (* a continuation presents the GENUINE call token of its stream: everything the miss path checks about the
+     presented call token holds, except possibly its age (used for sources with dated_miss = true) *)
+  Definition genuine (c : cfg) (wd : world) (r : req) : bool :=
+    match r with
+    | RCont w a m cur call body =>
+        match open_cursor (ttl c) (clock wd) (curs wd) a cur with
+        | inl _ => true
+        | inr cu =>
+            match call with
+            | PTok t => mem_ct t (calls wd) && lN_eqb (ct_aad t) (aad_id a) && (ct_cid t =? cu_cid cu)
+                        && ((ct_ty t =? 0) || declares m (ct_ty t))
+            | _ => false
+            end
+        end
+    | _ => true
+    end.
+  Fixpoint genuine_from (c : cfg) (wd : world) (h : list req) : bool :=
+    match h with
+    | [] => true
+    | r :: rest => genuine c wd r && genuine_from c (fst (step c wd r)) rest
+    end.
+  Definition all_genuine (c : cfg) (t0 : N) (h : list req) : bool := genuine_from c (init_world c t0) h.
+
   Fixpoint admissible_from (c : cfg) (wd : world) (h : list req) : bool :=
     match h with
     | [] => true
@@ -258,6 +298,14 @@ Section Step.
     end.
   Definition admissible (c : cfg) (t0 : N) (h : list req) : bool := admissible_from c (init_world c t0) h.
 End Step.
+
+(* what step_cont / resolve_cold / step_init implement, in the vocabulary of translate/t_c14_cache.py *)
+Definition resolve_order : list N := [1; 2; 3; 4; 5; 6].
+Definition cold_checks : list N := [8; 100; 9; 101; 102; 11; 103; 104].
+Definition cache_uses : list N := [1; 2; 3].
+Definition key_fields : list N := [0; 1].
+Definition ident_parts : list (N + list N) := [inl 0; inr [0]; inl 1].
+Definition evict_oldest : bool := true.
 
 (* ---- stand-ins for the service of harness/c14_service.py (correspondence only) ------------------------------ *)
 (* methods: 0 ex (call state ExCall), 1 ey (no call state), 2 ez (call state ExCall); call-state type 1 = ExCall *)
@@ -286,10 +334,11 @@ Definition enc_outcome (o : outcome) : list N :=
   | ONone => [0]
   end.
 
-(* one correspondence case: (token_ttl, capacities, start of the clock, history) -> encoded outcomes + final cache sizes *)
-Definition run_case (x : N * list N * N * list req) : list (list N) :=
-  let '(t, cs, t0, h) := x in
-  let (wd, os) := run declares_h init_h turn_h (Cfg t cs) t0 h in
+(* one correspondence case: (dated_miss of the source, token_ttl, capacities, start of the clock, history)
+   -> encoded outcomes + final cache sizes *)
+Definition run_case (x : bool * N * list N * N * list req) : list (list N) :=
+  let '(dm, t, cs, t0, h) := x in
+  let (wd, os) := run declares_h init_h turn_h (Cfg t cs dm) t0 h in
   map enc_outcome os ++ [map (fun c => N.of_nat (length c)) (caches wd)].
 
 (* identity renderings, for comparison with _compute_aad (tail) and _CallStateCache._identity *)
